@@ -38,6 +38,8 @@ def corpus(rep):
             cases.append((name + ":" + lab, {"data": m}))
         for lab, m in readcheck.havoc(data, rng, 40 if quick else 400):
             cases.append((name + ":" + lab, {"data": m}))
+        for lab, m in readcheck.retype_mutations(data):
+            cases.append((name + ":" + lab, {"data": m}))
         # wrong declared lengths
         for ln in (0, 1, len(data) - 1, len(data) + 1, 1 << 32, (1 << 64) - 1):
             cases.append((name + ":len=%d" % ln, {"data": data, "len": ln}))
@@ -62,6 +64,11 @@ def corpus(rep):
     for name, finit, m1, m0, fields in readcheck.valid_fragmented(rng, 6 if quick else 40):
         cases.append((name, {"data": finit + m1}))
         cases.append((name + ":seg", {"data": finit, "frag": m0}))
+        # every box of the fragmented movie missing in turn (mvex, trex, mehd, tfhd, tfdt, trun, ...): as one stream, and in the init segment
+        for lab, m in readcheck.retype_mutations(finit + m1):
+            cases.append((name + ":" + lab, {"data": m}))
+        for lab, m in readcheck.retype_mutations(finit):
+            cases.append((name + ":seg:" + lab, {"data": m, "frag": m0}))
         for off, width, role, path in fields:
             for v in (readcheck.BOUNDARY if not quick else rng.sample(readcheck.BOUNDARY, 2)):
                 vv = v % (1 << (8 * width))
